@@ -13,9 +13,9 @@ from sim.kernel import KERNEL
 from . import common
 
 STAGES = ['mapping', 'mapping', 'mapping_mgr', 'stats', 'stats', 'refmarkers', 'pmask',
-          'pmask_markers', 'qmarkers', 'transpose']
+          'pmask_markers', 'qmarkers', 'transpose', 'otf']
 ALL_STAGES = ['mapping', 'mapping_mgr', 'stats', 'refmarkers', 'pmask', 'pmask_markers', 'qmarkers',
-              'transpose']
+              'transpose', 'otf']
 
 
 def gen_stage(rng, stage):
@@ -56,6 +56,28 @@ def gen_stage(rng, stage):
                       'p_th': rng.choice([0.01, 0.2, 0.5]), 'n_per_utility': rng.randint(1, 4),
                       'q_subset': rng.random() < 0.5, 'n_per': 8,
                       'behemoth_cutoff': rng.choice([0, 2, 5000000])}
+    elif stage == 'otf':
+        # mapping with on-the-fly markers: reference markers, query markers and mapping pools inside ONE call
+        wp = world.draw_world_params(rng, cells_per_leaf=[2, rng.choice([3, 6])], blocky=False,
+                                     degenerate=0.0, n_unlabelled=0, odd_names=rng.random() < 0.2,
+                                     shared_names=False, single_top=False)
+        wp['n_leaves'] = rng.choice([3, 4, 5, 6, 8])
+        wp['depth'] = rng.choice([1, 2, 3])
+        wp['n_genes'] = rng.choice([8, 12, 16])
+        wp['n_query'] = rng.choice([3, 5, 8, 12])
+        wp['q_drop'] = rng.choice([0.0, 0.0, 0.15])
+        scn['wp'] = wp
+        W = world.make_world(wp)
+        droppable = list(W.tax.hierarchy[:-1])
+        scn['cfg'] = {'n_processors': rng.randint(2, 4), 'n_valid': rng.choice([3, 10, 30]),
+                      'exact_penetrance': rng.random() < 0.3, 'p_th': rng.choice([0.01, 0.2, 0.5]),
+                      'n_per_utility': rng.randint(1, 4), 'chunk_size': rng.randint(1, max(1, wp['n_query'] // 2)),
+                      'bootstrap_factor': rng.choice([1.0, 0.9, 0.7, 0.5]),
+                      'bootstrap_iteration': rng.choice([1, 3, 7]), 'rng_seed': rng.randrange(2 ** 31),
+                      'n_runners_up': rng.randint(0, 3), 'min_markers': rng.choice([1, 1, 3]),
+                      'drop_level': rng.choice(droppable) if droppable and rng.random() < 0.2 else None,
+                      'flatten': rng.random() < 0.1, 'cloud_safe': rng.random() < 0.3,
+                      'encoding': rng.choice(['dense', 'csr', 'csc']), 'max_gb': rng.choice([1.0, 1e-6])}
     else:
         scn['mat'] = {'seed': rng.randrange(2 ** 31), 'n_rows': rng.randint(1, 12),
                       'n_cols': rng.randint(2, 14), 'density': rng.choice([0.1, 0.4, 0.9]),
@@ -133,6 +155,12 @@ def prepare(scn, sb):
                 qg = [g for i, g in enumerate(W.genes) if i % 3 != 0] + ['extra_x']
                 ctx['q_genes'] = qg
                 world.write_h5ad(sb.p('in', 'q.h5ad'), np.zeros((2, len(qg))), ['a', 'b'], qg)
+    elif stage == 'otf':
+        W = world.make_world(scn['wp'])
+        ctx['W'] = W
+        ctx['stats'] = W.write_stats_file(sb.p('in', 'stats.h5'))
+        ctx['query'] = sb.p('in', 'query.h5ad')
+        world.write_h5ad(ctx['query'], W.q_X, W.q_ids, W.q_genes, encoding=scn['cfg']['encoding'])
     else:
         import h5py
         import scipy.sparse as sp
@@ -148,6 +176,17 @@ def prepare(scn, sb):
         ctx['mat_path'] = p
         ctx['n_cols'] = m['n_cols']
     return ctx
+
+
+def otf_driver_cfg(sb, ctx, cfg, outd, n_processors=None, tmp_dir=None):
+    return drivers.otf_config(
+        ctx['query'], ctx['stats'], outd, tmp_dir or sb.p('scratch'), tag='otf',
+        n_processors=n_processors or cfg['n_processors'], n_valid=cfg['n_valid'],
+        exact_penetrance=cfg['exact_penetrance'], p_th=cfg['p_th'], n_per_utility=cfg['n_per_utility'],
+        chunk_size=cfg['chunk_size'], bootstrap_factor=cfg['bootstrap_factor'],
+        bootstrap_iteration=cfg['bootstrap_iteration'], rng_seed=cfg['rng_seed'],
+        n_runners_up=cfg['n_runners_up'], min_markers=cfg['min_markers'], drop_level=cfg['drop_level'],
+        flatten=cfg['flatten'], cloud_safe=cfg['cloud_safe'], max_gb=cfg['max_gb'])
 
 
 def execute(scn, sb, ctx, k_i, kk):
@@ -167,11 +206,14 @@ def execute(scn, sb, ctx, k_i, kk):
         out, s = harness.run_call(sched, drivers.run_mapping, dcfg)
         dig = None
         if out[0] == 'ok':
-            blob = common.load_json(dcfg['extended_result_path'])
-            with open(dcfg['csv_result_path']) as f:
-                csv_rows = [ln for ln in f.read().splitlines() if not ln.startswith('#')]
-            dig = [harness.json_digest(blob), harness.h5_digest(dcfg['hdf5_result_path']),
-                   model.canonical_json(csv_rows)]
+            try:
+                blob = common.load_json(dcfg['extended_result_path'])
+                with open(dcfg['csv_result_path']) as f:
+                    csv_rows = [ln for ln in f.read().splitlines() if not ln.startswith('#')]
+                dig = [harness.json_digest(blob), harness.h5_digest(dcfg['hdf5_result_path']),
+                       model.canonical_json(csv_rows)]
+            except (OSError, ValueError, KeyError) as e:
+                dig = 'outputs-unreadable-after-success: %s' % type(e).__name__
     elif stage == 'mapping_mgr':
         ctx['outputs'] = {}
         if ctx['cache'] is None:
@@ -238,6 +280,19 @@ def execute(scn, sb, ctx, k_i, kk):
             if out[0] == 'ok':
                 dig = harness.json_digest(out[1])
                 out = ('ok', None)
+    elif stage == 'otf':
+        dcfg = otf_driver_cfg(sb, ctx, cfg, outd, n_processors=kk.get('n_processors', cfg['n_processors']))
+        ctx['outputs'] = {'json': dcfg['extended_result_path'], 'csv': dcfg['csv_result_path'], 'dcfg': dcfg}
+        out, s = harness.run_call(sched, drivers.run_otf, dcfg)
+        dig = None
+        if out[0] == 'ok':
+            try:
+                blob = common.load_json(dcfg['extended_result_path'])
+                with open(dcfg['csv_result_path']) as f:
+                    csv_rows = [ln for ln in f.read().splitlines() if not ln.startswith('#')]
+                dig = [harness.json_digest(blob), model.canonical_json(csv_rows)]
+            except (OSError, ValueError, KeyError) as e:
+                dig = 'outputs-unreadable-after-success: %s' % type(e).__name__
     else:
         dst = os.path.join(outd, 't.h5')
         ctx['outputs'] = {'transposed': dst}
